@@ -1547,6 +1547,10 @@ func checkDeserializerBounds(r *Reporter, p *Prog) {
 					return
 				}
 				for _, d := range defs {
+					if d.Rhs == nil {
+						r.Fail(rule, key, pos, what+": "+id.Name+" is updated in place on a path that has not established that "+kKey+" bytes remain", w...)
+						return
+					}
 					if isRemLen(d.Rhs) {
 						continue // all that remains
 					}
